@@ -3499,7 +3499,11 @@ class Interp:
                 if side_ not in ('left', 'right') or so_ is not None:
                     return Unk('searchsorted with side=%r / sorter' % (side_,), e)
                 extra_ = [C('right')] if side_ == 'right' else []          # side='right' counts the knots that are <= the query, side='left' those that are <
-                return Arr(a[1].dims, alg.mk_fn('searchsorted', B(a[0].dims[0] if a[0].ndim else None, a[0].poly), P(a[1].poly), *extra_), unit=num(1))
+                r_ss = Arr(a[1].dims, alg.mk_fn('searchsorted', B(a[0].dims[0] if a[0].ndim else None, a[0].poly), P(a[1].poly), *extra_), unit=num(1))
+                if self.track_xr and a[0].ndim == 1 and a[1].ndim == 0:
+                    # a bisection is a count in the order numpy sorts by (NaN last): the tree of that comparison, for the class evaluation of xreal.py
+                    self.xr_log.append((r_ss.poly, 'searchsorted', ('cmp', 'TotLtE' if side_ == 'right' else 'TotLt', _xr(a[0]), _xr(a[1]))))
+                return r_ss
             if last == 'linspace' and len(args) >= 3 and not kw:
                 # n evenly spaced points from a to b: element i is a + i*(b - a)/(n - 1) (a single point is a); the axis is the one created with that count, if any
                 a = [self._as_arr(v) for v in args[:3]]
